@@ -602,7 +602,9 @@ def cases(tier):
     idx += 1
     w2, x2 = G.with_via(w, idx), G.with_via(x, idx // 2)
     for j, n in enumerate(ns):
-      shape = [n, 3] if (j + idx) % 2 == 0 else conv_shape(n)
+      if tier == "quick" and (j + idx) % 3:
+        continue            # quick: every pair gets a rotating third of the N list
+      shape = [n, 3] if (j // 3 + idx) % 2 == 0 else conv_shape(n)
       for bias in (False, True):
         yield {"t": "acc", "w": w2, "x": x2, "shape": shape, "bias": bias}
   # adders
